@@ -6,6 +6,9 @@ HERE = os.path.dirname(os.path.dirname(os.path.abspath(__file__)))
 
 # id -> (technique, level text, level note, design ref)
 CHECKS = {
+ "C01": ("crash/hang/wedge monitor: return-vs-unwind per call in an overflow-checked build inside watchdogged worker processes + liveness probe; ASan, valgrind memcheck and Miri slices (thorough)",
+         "exploration: every feed/API/resize/display call of ~270k cases per quick run (sessions, hostile mutations, class-alphabet strings after 14 state-setting prefixes, all 2-byte strings, API sequences with arguments in {absent} U [0,9999], captured sessions; chars and bytes, UTF-8 and 8-bit, three chunkings; geometries 1x1..140x40) must return, then display() must return `lines` rows and BEL BEL CAN ESC c + sentinel must draw the sentinel; thorough adds AddressSanitizer, valgrind memcheck (both run the coroutine) and Miri (Screen API only) slices",
+         "'no unbounded loop' restated as bounded progress under a watchdog (a stall counts only after three isolated re-runs); sanitizers see only the paths driven; Miri cannot run the parser coroutine", "§6 C01, §5"),
  "C02": ("model-free differential pair monitor: whole-stream run vs chunked runs, full snapshots compared",
          "exploration: ~1.3M stream/partition pairs per quick run: every 2-way cut of short streams (incl. inside UTF-8 sequences and escape sequences), unit-at-a-time, random k-way cuts with empty chunks, for Parser, ByteParser UTF-8 and ByteParser 8-bit, plus random cuts of the seven captured sessions",
          "both runs are the implementation itself: a chunk-independent but wrong result is other properties' business", "§6 C02"),
@@ -27,6 +30,12 @@ CHECKS = {
  "C08": ("per-step Hoare monitor: independent SGR fold with computed xterm palette; exhaustive single codes / extended-colour forms / pairs",
          "exploration with exhaustive sub-domains: every SGR code 0..=9999, every 38|48;5;n and boundary 38|48;2;r;g;b form, truncated forms and all ordered pairs of 70 codes from 6 attribute states, API + parser, each followed by drawing a character; plus random lists",
          "palette computed from the xterm definition; triples and longer lists sampled", "§6 C08"),
+ "C09": ("invariant hook evaluated after every listener call / resize of long mixed histories (observed inside feed() by the pass-through listener)",
+         "exploration: ~4M invariant evaluations per quick run over mixed byte/API/resize/DECCOLM histories; a violation is attributed to the call after which it first holds; display() length checked on forks",
+         "the invariant is evaluated on the normalised snapshot (hidden cells/rows are not part of it)", "§6 C09"),
+ "C10": ("(A) display() on a fork vs rendering recomputed from the snapshot; (B) model-free pair monitor: same history with/without display() interposed",
+         "exploration: ~280k history pairs and ~110k renderings per quick run; for histories <= 30 ops display() is interposed before each single op, before every op and before random subsets; full snapshots after every op and the final display() must be equal",
+         "a non-placeholder cell after a double-width lead may be rendered or skipped (statement silent)", "§6 C10"),
  "C11": ("differential event-log monitor: ByteParser on chunks vs the same recogniser on std's lossy decoding of the concatenation",
          "exploration with an exhaustive sub-domain: every boundary/ill-formed UTF-8 form and each of its truncations in four contexts, all byte strings of length <= 3 over a 24-byte class alphabet, each whole, at every 2-way cut and byte-at-a-time; random byte strings, mutated sessions and mode switches between chunks",
          "String::from_utf8_lossy is the trusted reference decoder; a partial sequence pending at a mode switch may be dropped or replaced", "§6 C11"),
@@ -39,15 +48,24 @@ CHECKS = {
  "C14": ("per-step Hoare monitor over save^k . ops . restore^m histories: exact push/pop of the observable cursor state, stack untouched by everything else",
          "exploration: ~1.4M judged calls per quick run; DECSC must push exactly the observable cursor state and DECRC pop it with the documented clamping and one-way mode re-enabling; every other call must leave the stack alone",
          "the saved stack is observed through the public savepoints field; a saved pending-wrap column may come back as columns or columns-1", "§6 C14"),
+ "C15": ("model-free: snapshot(h . RIS) vs Screen::new of the current size, and (h . RIS . t) vs (new . t) after every op of t",
+         "exploration: ~100k histories per quick run (1.4M continuation steps); every Screen component is perturbed before RIS (counted per component, required non-zero); RIS via ESC c and reset()",
+         "continuations contain no DECRC (the saved stack is the one thing RIS leaves alone)", "§6 C15"),
  "C16": ("per-step Hoare monitor: reference crop/extend + reappearance probe (grow after every judged resize)",
          "exploration: all target sizes 1..=max+2 in both dimensions for screens <= 8x5 from zoo states (margins, DECOM, pending wrap, wide characters, hidden-cell producers), resize sequences <= 3, DECCOLM round trips; every judged state is grown by (+2,+2) and the new area must be blank",
          "cursor only required to be inside the new bounds (statement does not say where)", "§6 C16"),
+ "C17": ("model-free window monitor playing the embedder: rows changed since the last clear must be in dirty; screen-wide changes mark all rows; no stale index",
+         "exploration: ~860k listener calls per quick run inside random clear-windows, over mixed histories plus targeted ones (combining mark at column 0, both spellings of DECSCNM, shrink, wrap, regions, DECCOLM, DECALN/RIS)",
+         "over-approximation of dirty is allowed by the statement and never reported", "§6 C17"),
  "C18": ("per-step Hoare monitor: closed-form HT/HTS/TBC; every width 1..=140 enumerated",
          "exploration with an exhaustive sub-domain: default stops and HT from every column incl. pending wrap for every width 1..=140; random HTS/TBC sequences followed by an HT walk; width changes between setting and using a stop",
          "stops at or beyond the right edge are unobservable until the screen grows and are not compared", "§6 C18"),
  "C19": ("generated OSC strings with the expected title/icon known by construction, real Screen, all terminators/introducers/cuts",
          "exploration with an exhaustive sub-domain: 2 introducers x 19 codes x 3 terminators x 108 payloads incl. every printable ASCII singleton, every 2-way cut for codes 0/1/2, Parser and ByteParser; random payloads up to 4096 characters",
          "codes R and P excluded (see C03)", "§6 C19"),
+ "C20": ("exhaustive table check through draw(): cell text vs golden tables derived independently of the repository; API, Parser and ByteParser paths",
+         "exhaustive on the finite domain (256 code points x 4 tables x {G0,G1} x {SI,SO} via the API; every drawable byte x the same configurations via ByteParser and Parser in 8-bit mode; defaults after construction/RIS; every designator final; UTF-8 mode ignores shifts/designators) plus per-step judging of SO/SI/designations in random traffic",
+         "golden tables typed in from the Linux console maps and Python's cp437 codec (/verif/data/gen_tables.py); the 8 VAX42 substitutions are a trusted literal", "§6 C20"),
 }
 
 NOT_BUILT = {}
